@@ -27,7 +27,7 @@ def gen_cases(rng, tier):
                 break
             total += size
             srcs.append({"arg": gen_source_path(rng, used, longnames=True), "content": spec})
-        cases.append({"sources": srcs, "verbose": rng.random() < 0.3, "archive": rng.choice(["t.k7", "o+/t.k7"])})
+        cases.append({"sources": srcs, "verbose": rng.random() < 0.3, "archive": rng.choice(["t.k7", "o+/t.k7"]), "old": rng.choice([None, None, None, 0, 100, 21504, 32768, 70000])})
     # both sides of the capacity: the last usable byte is TAPE - 1; one byte more must not produce an archive at all
     nf = scale(tier, 24, 400)
     for _ in range(nf):
@@ -65,6 +65,9 @@ def oracle(case, obs, ctx):
 def run_case(case, ctx):
     cd = CaseDir(ctx)
     try:
+        if case.get("old") is not None:
+            # a file already lies at the archive path (shorter, as long, longer than a tape): create replaces it
+            cd.put(c01.arch_path(case, cd), materialize({"rand": 5, "len": case["old"]}))
         obs = c01.flow(case, ctx, cd)
         dis = c01.compare(obs, cd)
         bad = oracle(case, obs, ctx)
